@@ -131,7 +131,7 @@ func (sk *SpaceKeeper) GetQualities(ctx context.Context, flags engine.WorkSpaceS
 	}
 
 	items := make(map[string]*WorkSpace)
-	for _, ws := range getWsByFlags(sk.workSpaceList, flags) {
+	for _, ws := range sk.selectWorkSpaces(flags) {
 		items[ws.id.String()] = ws
 	}
 
@@ -170,7 +170,7 @@ func (sk *SpaceKeeper) GetQualitiesReader(ctx context.Context, flags engine.Work
 	}
 
 	items := make(map[string]*WorkSpace)
-	for _, ws := range getWsByFlags(sk.workSpaceList, flags) {
+	for _, ws := range sk.selectWorkSpaces(flags) {
 		items[ws.id.String()] = ws
 	}
 	qrw := engine.NewQualityRW(ctx, len(items))
@@ -517,7 +517,7 @@ func (sk *SpaceKeeper) DeleteWS(sid string) error {
 
 func (sk *SpaceKeeper) PlotMultiWS(flags engine.WorkSpaceStateFlags) map[string]error {
 	result := make(map[string]error)
-	for _, ws := range getWsByFlags(sk.workSpaceList, flags) {
+	for _, ws := range sk.selectWorkSpaces(flags) {
 		sid := ws.id.String()
 		result[sid] = sk.PlotWS(sid)
 	}
@@ -526,7 +526,7 @@ func (sk *SpaceKeeper) PlotMultiWS(flags engine.WorkSpaceStateFlags) map[string]
 
 func (sk *SpaceKeeper) MineMultiWS(flags engine.WorkSpaceStateFlags) map[string]error {
 	result := make(map[string]error)
-	for _, ws := range getWsByFlags(sk.workSpaceList, flags) {
+	for _, ws := range sk.selectWorkSpaces(flags) {
 		sid := ws.id.String()
 		result[sid] = sk.MineWS(sid)
 	}
@@ -535,7 +535,7 @@ func (sk *SpaceKeeper) MineMultiWS(flags engine.WorkSpaceStateFlags) map[string]
 
 func (sk *SpaceKeeper) StopMultiWS(flags engine.WorkSpaceStateFlags) map[string]error {
 	result := make(map[string]error)
-	for _, ws := range getWsByFlags(sk.workSpaceList, flags) {
+	for _, ws := range sk.selectWorkSpaces(flags) {
 		sid := ws.id.String()
 		result[sid] = sk.StopWS(sid)
 	}
@@ -544,7 +544,7 @@ func (sk *SpaceKeeper) StopMultiWS(flags engine.WorkSpaceStateFlags) map[string]
 
 func (sk *SpaceKeeper) RemoveMultiWS(flags engine.WorkSpaceStateFlags) map[string]error {
 	result := make(map[string]error)
-	for _, ws := range getWsByFlags(sk.workSpaceList, flags) {
+	for _, ws := range sk.selectWorkSpaces(flags) {
 		sid := ws.id.String()
 		result[sid] = sk.RemoveWS(sid)
 	}
@@ -553,7 +553,7 @@ func (sk *SpaceKeeper) RemoveMultiWS(flags engine.WorkSpaceStateFlags) map[strin
 
 func (sk *SpaceKeeper) DeleteMultiWS(flags engine.WorkSpaceStateFlags) map[string]error {
 	result := make(map[string]error)
-	for _, ws := range getWsByFlags(sk.workSpaceList, flags) {
+	for _, ws := range sk.selectWorkSpaces(flags) {
 		sid := ws.id.String()
 		result[sid] = sk.DeleteWS(sid)
 	}
@@ -958,6 +958,15 @@ func getWsByID(src []*WorkSpace, sid string) (*WorkSpace, bool) {
 		}
 	}
 	return nil, false
+}
+
+// selectWorkSpaces returns the configured workSpaces in the given states: a private
+// list taken under the state lock, for callers that do not hold it.
+func (sk *SpaceKeeper) selectWorkSpaces(flags engine.WorkSpaceStateFlags) []*WorkSpace {
+	sk.stateLock.RLock()
+	defer sk.stateLock.RUnlock()
+
+	return getWsByFlags(sk.workSpaceList, flags)
 }
 
 func getWsByFlags(src []*WorkSpace, flags engine.WorkSpaceStateFlags) []*WorkSpace {
